@@ -40,6 +40,12 @@ def AT(rid):
     LOG.append(("at", rid))
 
 
+def RV(flag, val):
+    if flag:
+        raise EA("rv")
+    return val
+
+
 def UB(rid, ex):
     s = str(ex)
     i = s.find("'")
@@ -139,6 +145,15 @@ class G:
     def s_assign(self, ind):
         v = self.pick(self.vars + self.closure + ([self.glob] if self.glob else []))
         self.feats.add("assign")
+        if self.chance(0.25):
+            # assignment whose right-hand side may raise (the name keeps its previous binding / stays unbound),
+            # half of the time right after a `del` of the same name
+            self.feats.add("assign:failing-rhs")
+            lines = []
+            if self.chance(0.5) and v in self.vars:
+                self.feats.add("del")
+                lines += [ind + "try:", ind + "    del %s" % v, ind + "except NameError:", ind + "    pass"]
+            return lines + [ind + "%s = RV(%s, %s)" % (v, self.bit(), self.value(v))]
         return [ind + "%s = %s" % (v, self.value(v))]
 
     def s_read(self, ind, v=None):
